@@ -66,8 +66,8 @@ def assignments(chk):
             out.append(ks)
     if chk.tier == "quick":
         rng.shuffle(out)
-        out = out[:90]
-    extra = 25 if chk.tier == "quick" else 3000
+        out = out[:392]
+    extra = 150 if chk.tier == "quick" else 3000
     for _ in range(extra):
         out.append(tuple(rng.choice(KINDS) for _ in range(rng.randint(4, 5))))
     return out
@@ -263,7 +263,7 @@ def run(chk):
                                                                                        mtrace[:40], mh.model_states(m[1]), bool(m[2])))
         chk.coverage["traces_validated_against_impl"] = len(res)
         chk.count("disagreements", nd)
-    chk.coverage["exhaustive"] = "thorough tier: all 7^2 + 7^3 assignments of failure kinds to 2 and 3 runs; quick tier: 90 of them"
+    chk.coverage["exhaustive"] = "all 7^2 + 7^3 assignments of failure kinds to 2 and 3 runs (both tiers)"
     chk.coverage["rule"] = ("assignments of 7 kinds (ok, fails from the start, fails after k successes, complete earlier, missing binary, failing "
                             "build, unknown adapter) to 2-5 runs x scheduler x -f; distinct = assignment")
     chk.assumptions += ["in-process sessions script process and build results; the CLI sessions use a real fake-harness process"]
